@@ -335,6 +335,10 @@ class Builder:
             return ox.matmul(self.farr(n[1], "mv"), v)
         if k == "Mv":
             return self.M(n[1]) @ self.V(n[2])
+        if k == "vM":
+            Mx = np.array(n[2], dtype=float) if (len(n) < 4 or n[3] != "list") else [list(r_) for r_ in n[2]]
+            v = self.V(n[1])
+            return v.dot(Mx) if (len(n) > 3 and n[3] == "dot") else v @ Mx
         if k == "velems":
             from optyx.core.vectors import VectorExpression
 
@@ -368,6 +372,19 @@ class Builder:
         raise ValueError(f"matrix node {k}")
 
     # ------------------------------------------------------------------
+    def set_params(self, values):
+        """Parameter.set / VectorParameter.set for {"p": 2.0, "w": [..]} (names not declared are skipped; lists are cut / repeated
+        to the declared length, like exprcase.with_param_values)"""
+        for name, val in values.items():
+            o = self.env.get(name)
+            if o is None:
+                continue
+            if isinstance(val, (list, tuple)):
+                n_ = len(o)
+                o.set([float(val[i % len(val)]) for i in range(n_)])
+            else:
+                o.set(val)
+
     def rel(self, n):
         """Constraint(s) from ["rel", sense, lhs, rhs, form]."""
         s = n[1]
